@@ -58,8 +58,27 @@ func vp8xPayload(flags byte, w, h int) []byte {
 func genC16(t *rapid.T) *c16Case {
 	c := &c16Case{Source: rapid.SampledFrom([]string{"encode", "animenc", "muxer", "riffgen-still", "riffgen-still", "riffgen-anim"}).Draw(t, "source")}
 	pool := bitstreamPool()
+	// Real files carry colour profiles and maker notes of kilobytes to megabytes in front of the image data; a reader
+	// that looks at a bounded window of the file meets the image chunk late or not at all. One case in six gets a large
+	// front chunk, with lengths around the window sizes an implementation might pick (4 KiB .. 1 MiB).
+	bigFront := rapid.IntRange(0, 5).Draw(t, "bigFront") == 0
+	bigLen := func(label string) int {
+		base := rapid.SampledFrom([]int{1 << 12, 1 << 13, 1 << 15, 1 << 16, 1 << 16, 1 << 17, 1 << 18, 1 << 20}).Draw(t, label+"Base")
+		return base + rapid.IntRange(-40, 40).Draw(t, label+"Delta")
+	}
+	blob := func(prefix string, n int) []byte {
+		b := make([]byte, n)
+		copy(b, prefix)
+		for i := len(prefix); i < n; i++ {
+			b[i] = byte(i*7 + i>>8)
+		}
+		return b
+	}
 	drawUnknown := func() []byte {
 		n := rapid.IntRange(0, 9).Draw(t, "unkLen")
+		if bigFront && rapid.Bool().Draw(t, "unkBig") {
+			n = bigLen("unk")
+		}
 		id := rapid.SampledFrom([]string{"JUNK", "abcd", "VP8Y", "EXIG"}).Draw(t, "unkID")
 		return riffChunk(id, bytes.Repeat([]byte{0x41}, n), true)
 	}
@@ -145,14 +164,25 @@ func genC16(t *rapid.T) *c16Case {
 		flags ^= flip
 		chunks = append(chunks, riffChunk("VP8X", vp8xPayload(flags, e.W, e.H), true))
 		if icc {
-			chunks = append(chunks, riffChunk("ICCP", []byte("icc-profile"), true))
+			if bigFront && rapid.Bool().Draw(t, "iccBig") {
+				chunks = append(chunks, riffChunk("ICCP", blob("icc-profile", bigLen("icc")), true))
+			} else {
+				chunks = append(chunks, riffChunk("ICCP", []byte("icc-profile"), true))
+			}
 		}
 		if rapid.Bool().Draw(t, "unk1") {
 			chunks = append(chunks, drawUnknown())
 		}
 		metaFirst := rapid.IntRange(0, 4).Draw(t, "metaBeforeImage") == 0
+		if bigFront && exif && rapid.Bool().Draw(t, "exifFirstBig") {
+			metaFirst = true
+		}
 		if metaFirst && exif {
-			chunks = append(chunks, riffChunk("EXIF", []byte("exif!"), true))
+			if bigFront {
+				chunks = append(chunks, riffChunk("EXIF", blob("exif!", bigLen("exif")), true))
+			} else {
+				chunks = append(chunks, riffChunk("EXIF", []byte("exif!"), true))
+			}
 		}
 		if hasAlph {
 			chunks = append(chunks, riffChunk("ALPH", e.Alph, true))
@@ -176,7 +206,7 @@ func genC16(t *rapid.T) *c16Case {
 			chunks = append(chunks, drawUnknown())
 		}
 		c.File = riffFile(chunks...)
-		c.Desc = fmt.Sprintf("still %dx%d lossless=%v alph=%s flags=%#x flip=%#x metaFirst=%v", e.W, e.H, lossless, alphMode, flags, flip, metaFirst)
+		c.Desc = fmt.Sprintf("still %dx%d lossless=%v alph=%s flags=%#x flip=%#x metaFirst=%v bigFront=%v len=%d", e.W, e.H, lossless, alphMode, flags, flip, metaFirst, bigFront, len(c.File))
 	default: // riffgen-anim
 		n := rapid.IntRange(1, 5).Draw(t, "nFrames")
 		// rare: long animations around the container's chunk/frame limits (1000 chunks, 10000 frames);
